@@ -43,6 +43,7 @@ import (
 	"fmt"
 	"io"
 	"os"
+	"strings"
 
 	"github.com/sirupsen/logrus"
 	googleproto "google.golang.org/protobuf/proto"
@@ -116,6 +117,96 @@ func criteriaCount(r *proto.Rule) int {
 		n++
 	}
 	return n
+}
+
+// Keys of the two findings recorded in /verif/known_findings.json.  They are emitted ONLY for
+// the exact failing situation so that every other mismatch keeps its own key.
+const (
+	keyScratchBit       = "overmatch:scratch-bit-not-cleared-between-positive-blocks"
+	keyProtoAndNotProto = "iptables-rejects:protocol-and-notprotocol"
+)
+
+// The harness keeps at most 50 violation records per worker; a known finding that occurs in
+// ~9% of the cases must not crowd out anything else, so each known key is emitted at most a
+// few times per worker process and counted (known_* counters) every time.
+var knownEmitted = map[string]int{}
+
+func emitKnown(key string) bool {
+	knownEmitted[key]++
+	return knownEmitted[key] <= 4
+}
+
+func netsOfFamily(cidrs []string, v uint8) int {
+	n := 0
+	for _, c := range cidrs {
+		if strings.Contains(c, ":") == (v == 6) {
+			n++
+		}
+	}
+	return n
+}
+
+// staleScratchBitPredictsMatch models known finding (1): ProtoRuleToIptablesRules renders the
+// positive match blocks in the order src ports, dst ports, src CIDRs, dst CIDRs; the first
+// writes the "all blocks pass" bit directly, every later one writes the scratch bit and ANDs it
+// in - but the scratch bit is never cleared between blocks.  So when the first two blocks pass,
+// every later block is treated as passed.  It returns the number of positive blocks the rule
+// renders for the packet's family and whether the packet is exactly in that situation: all
+// non-block criteria (and the negated CIDR blocks) pass, blocks one and two pass, and some
+// later block fails.  (The reference evaluator is used on sub-rules; rules.SplitPortList only
+// to count the port splits.)
+func staleScratchBitPredictsMatch(rule *proto.Rule, p *refpolicy.Packet, sets refpolicy.IPSets) (int, bool) {
+	if !refpolicy.RuleApplies(rule, p.IPVersion) {
+		return 0, false
+	}
+	rest := googleproto.Clone(rule).(*proto.Rule)
+	var blocks []*proto.Rule
+	if len(rules.SplitPortList(rule.SrcPorts))+len(rule.SrcNamedPortIpSetIds) > 1 {
+		blocks = append(blocks, &proto.Rule{SrcPorts: rule.SrcPorts, SrcNamedPortIpSetIds: rule.SrcNamedPortIpSetIds})
+		rest.SrcPorts, rest.SrcNamedPortIpSetIds = nil, nil
+	}
+	if len(rules.SplitPortList(rule.DstPorts))+len(rule.DstNamedPortIpSetIds) > 1 {
+		blocks = append(blocks, &proto.Rule{DstPorts: rule.DstPorts, DstNamedPortIpSetIds: rule.DstNamedPortIpSetIds})
+		rest.DstPorts, rest.DstNamedPortIpSetIds = nil, nil
+	}
+	if netsOfFamily(rule.SrcNet, p.IPVersion) > 1 {
+		blocks = append(blocks, &proto.Rule{SrcNet: rule.SrcNet})
+		rest.SrcNet = nil
+	}
+	if netsOfFamily(rule.DstNet, p.IPVersion) > 1 {
+		blocks = append(blocks, &proto.Rule{DstNet: rule.DstNet})
+		rest.DstNet = nil
+	}
+	if len(blocks) < 3 || !refpolicy.MatchRule(rest, p, sets) {
+		return len(blocks), false
+	}
+	if !refpolicy.MatchRule(blocks[0], p, sets) || !refpolicy.MatchRule(blocks[1], p, sets) {
+		return len(blocks), false
+	}
+	for _, b := range blocks[2:] {
+		if !refpolicy.MatchRule(b, p, sets) {
+			return len(blocks), true
+		}
+	}
+	return len(blocks), false
+}
+
+// behavesAsMatch: did the rendered rules do exactly what they do when the rule matches?
+func behavesAsMatch(act refpolicy.Action, res *nfsim.Result, got, accept, pass uint32, reject, fellToNext bool, nLOG int) bool {
+	switch act {
+	case refpolicy.Allow:
+		return res.Verdict == nfsim.FellThrough && res.Returned && got == accept
+	case refpolicy.Pass:
+		return res.Verdict == nfsim.FellThrough && res.Returned && got == pass
+	case refpolicy.Deny:
+		if reject {
+			return res.Verdict == nfsim.Reject
+		}
+		return res.Verdict == nfsim.Drop
+	case refpolicy.Log:
+		return nLOG > 0 && fellToNext && got == 0
+	}
+	return false
 }
 
 func run(c *harness.Case) {
@@ -221,6 +312,16 @@ func run(c *harness.Case) {
 					if errors.As(err, &ne) && ne.Class != "" {
 						class = ne.Class
 					}
+					if flavor == nfsim.Iptables && class == "multiple-proto-flags" && rule.Protocol != nil && rule.NotProtocol != nil {
+						// KNOWN FINDING (2): a rule with both protocol and notProtocol renders
+						// `-p X ! -p Y`, which iptables-restore refuses.
+						c.Count("known_protocol_and_notprotocol", 1)
+						if emitKnown(keyProtoAndNotProto) {
+							c.Violationf(keyProtoAndNotProto, detail(map[string]any{"ipVersion": ipv, "error": err.Error(), "rendered": rs.Dump()}),
+								"iptables v%d: rule with protocol and notProtocol renders two -p flags, which iptables-restore refuses: %v", ipv, err)
+						}
+						continue
+					}
 					c.Violationf("rejected:"+class+":"+fl, detail(map[string]any{"ipVersion": ipv, "error": err.Error(), "rendered": rs.Dump()}),
 						"%s v%d: a rendered rule would be refused at load time: %v", fl, ipv, err)
 					continue
@@ -311,6 +412,22 @@ func run(c *harness.Case) {
 						bad = "log-verdict-mark-changed"
 					}
 				}
+				if bad != "" && !want {
+					// KNOWN FINDING (1)?  Only the exact stale-scratch-bit situation qualifies.
+					nBlocks, stale := staleScratchBitPredictsMatch(rule, &p, sets)
+					if stale && nBlocks >= 3 && behavesAsMatch(act, res, got, accept, pass, reject, fellToNext, nLOG) {
+						c.Count("known_scratch_bit_overmatch", 1)
+						if emitKnown(keyScratchBit) {
+							c.Violationf(keyScratchBit, detail(map[string]any{
+								"ipVersion": ipv, "renderer": fl, "packet": p.String(), "positive_blocks": nBlocks, "symptom": bad,
+								"observed": map[string]any{"verdict": res.Verdict.String(), "returned": res.Returned, "mark": fmt.Sprintf("%#x", res.Mark), "trace": res.TraceString()},
+								"rendered": rs.Dump()}),
+								"%s v%d: rule %s has %d positive match blocks; the first two pass and a later one fails for packet %s, yet the rendered rules take the %s action (scratch bit not cleared between blocks)",
+								fl, ipv, rule.RuleId, nBlocks, p, act)
+						}
+						continue
+					}
+				}
 				if bad != "" {
 					c.Violationf(bad+":"+fl, detail(map[string]any{
 						"ipVersion": ipv, "renderer": fl, "packet": p.String(), "initial_mark": fmt.Sprintf("%#x", pkt.Mark),
@@ -369,6 +486,8 @@ func main() {
 			"internal/nfsim evaluates the rendered text with kernel semantics (calibrated by hand against nft 1.0.6 --debug=netlink for every clause shape Felix renders); it is the trusted interpreter",
 			"internal/refpolicy.MatchRule is the reference semantics, written from the data-model documentation",
 			"nft `icmp type != T code != C` is read as NOT(type==T AND code==C) (the single 2-byte compare the real nft emits for the explicit form); the local nft 1.0.6 rejects the shorthand so this shape is not calibrated",
+			"rendered text that the real front end refuses is judged by parser rules in nfsim, each confirmed by hand against the real tools in this sandbox: iptables/iptables-restore 1.8.9 (nf_tables and legacy) reject a rule with two -p flags ('multiple -p flags not allowed') and a multiport match with more than 15 port slots; nft 1.0.6 rejects `ip` expressions in an ip6 table",
+			"known finding overmatch:scratch-bit-not-cleared-between-positive-blocks is emitted only when the rule renders >=3 positive match blocks, the reference says all other criteria and the first two blocks pass and a later block fails, and the rendered rules behave exactly as on a match; known finding iptables-rejects:protocol-and-notprotocol only for the iptables renderer, a rule with both protocol and notProtocol and the 'multiple -p flags' rejection; each is emitted at most 4 times per worker and counted every time (known_* counters)",
 			"IP set names come from the real ipsets.IPVersionConfig.NameForMainIPSet; set contents are given to the simulator directly (IP set programming is C16's subject)",
 		},
 		Cases: cases,
